@@ -416,3 +416,64 @@ def call_c13(case):
         for k in ("multi", "multidef", "auto", "reparse", "region", "asLocale"):
             res.setdefault(k, {"loc": "", "res": []})
     return res
+
+
+# --------------------------------------------------------------------------- C18: rewritings of one string
+def _cls(s):
+    import unicodedata
+    out = []
+    for ch in s:
+        if ch in "0123456789":
+            out.append("D")
+        elif unicodedata.category(ch) == "Nd":
+            out.append("N")
+        elif ch == " ":
+            out.append("S")
+        elif ch in "\t\n\r":
+            out.append("W")
+        elif ch == "\xa0":
+            out.append("B")
+        elif ch == ".":
+            out.append("P")
+        elif ch == ":":
+            out.append("C")
+        elif ch.isspace():
+            out.append("?")          # other Unicode whitespace: outside the class abstraction
+        elif ch.isalpha():
+            out.append("L")
+        else:
+            out.append("O")
+    return out
+
+
+def call_c18(case):
+    """case: {s, variants: [[kind, rewritten]...], kw, settings} -> outcome of s and of each variant"""
+    from dateparser.date import DateDataParser, sanitize_date
+    st = decode_settings(case.get("settings") or {})
+    p = DateDataParser(settings=st, **(case.get("kw") or {}))
+
+    def run(s):
+        try:
+            dd = p.get_date_data(s)
+            d = dd["date_obj"]
+            return [dt_to_list(d.replace(tzinfo=None)) if d else [], off_of(d) if d else "naive", dd["period"] or "", dd["locale"] or ""], ""
+        except BaseException as e:  # noqa
+            return [], type(e).__name__
+
+    def plain(s):
+        low = s.lower()
+        return not any(x in low for x in ("г", "on:", " u", "»", "‎", "‏", "\xb7", "َ", "ُ", ",")) and "?" not in _cls(s) \
+            and not any(ch in s for ch in "’ʼʻ՚ꞌ′‵ʹ＇")
+
+    base, exc0 = run(case["s"])
+    out = []
+    for kind, v in case["variants"]:
+        r, exc = run(v)
+        try:
+            san = sanitize_date(v)
+            sancls = _cls(san)
+        except Exception:
+            sancls = []
+        out.append({"kind": kind, "v": v, "base": base, "rew": r, "exc": exc0 or exc, "cls": _cls(v), "sancls": sancls,
+                    "plain": plain(v) and len(v) <= 60})
+    return {"variants": out}
